@@ -35,7 +35,7 @@ def _genes_size(rep, g):
 class MappingPurity(Facet):
     name = "mapping_purity"
     reps = ("ge", "sge", "dsge", "stack")
-    flags = Flags(dependent=False, user_mh=False, max_concrete=6)
+    flags = Flags(dependent=False, user_mh=False, max_concrete=6, concrete_start=True)
 
     def budget(self, tier):
         return (60, 8) if tier == "quick" else (400, 16)
@@ -159,4 +159,22 @@ class MappingPurityStack(MappingPurity):
         return (60, 3) if tier == "quick" else (300, 8)
 
 
-FACETS = [MappingPurity(), MappingPurityPlainDsge(), MappingPurityStack()]
+class DeciderSharedWithTree(MappingPurity):
+    """GE / SGE with a decider object that a tree representation uses directly between the
+    mappings (op "direct"), mostly on grammars whose starting symbol is a production: whatever a
+    decider remembers from its last direct use must not reach the mapping of a genotype."""
+
+    name = "decider_shared_with_tree_representation"
+    reps = ("ge", "sge")
+    flags = Flags(dependent=False, user_mh=False, max_concrete=6, min_extra_concrete=1, concrete_start="always", refined=False)
+
+    def budget(self, tier):
+        return (60, 4) if tier == "quick" else (300, 8)
+
+    def strategy(self, tier):
+        base = world_cases(self.flags, reps=self.reps, deciders=("pigrow", "pigrow", "full", "maxdepth", "progressive"), max_ops=3, depth_extras=(1, 2, 3, 4), with_burn=True)
+        extra = st.lists(st.sampled_from([["direct"], ["direct"], ["map", 0], ["create"], ["burn", 2]]), min_size=2, max_size=8)
+        return st.builds(lambda c, e: {**c, "ops": c["ops"] + e}, base, extra)
+
+
+FACETS = [MappingPurity(), MappingPurityPlainDsge(), MappingPurityStack(), DeciderSharedWithTree()]
